@@ -79,7 +79,7 @@ ENGINE_INCLUDES = {
 # online on a graph driven by ParallelStabilize. Parallelism 1 is deterministic and is replayed on the model
 # (Engine.parStabilize); parallelism 4 runs in a child process (a deadlock or a dying worker is an outcome).
 ENGINE_PAR_STREAMS = {
-    "C01": ["binds", "pardrop", "mix"],
+    "C01": ["binds", "pardrop", "pardropfaults", "mix"],
     "C02": ["binds", "raise", "pardrop", "mix"],
     "C03": ["binds", "pardrop", "mix"],
     "C05": ["binds", "churn", "mix"],
@@ -105,12 +105,19 @@ def run_engine_parallel(ctx, K):
 
 
 def run_engine(ctx, K):
-    if ctx.pid == "C05":
+    if ctx.pid in ("C01", "C02", "C03", "C05", "C06"):
+        # the >64-entry edge index sits under every wide node's dependents, inputs and observers: values (C01),
+        # ordering (C02), missed runs (C03) and leaks (C06) all go through it
         run_C05_edgeindex(ctx, K)
     if ctx.pid == "C12":
         run_parscen(ctx, K)  # vars created inside bind scopes (queued above height 0) written from node functions
     run_engine_parallel(ctx, K)
     if ctx.pid == "C07":
+        # aggregates under faults (failing siblings, the fold's own update function panicking): implementation only here,
+        # the fold state machine is C14's model
+        bf = K.go_build(ctx, "foldtrace")
+        if bf:
+            K.run_tool(ctx, bf, ["-n", str(tier_n(ctx, 300, 6000)), "-len", "30", "-reduce", "40", "-rounds", "2", "-seed", str(ctx.seed)], "fold-faults")
         # faults under ParallelStabilize: at parallelism 1 the run is deterministic and replayed on the
         # model; at parallelism 4 (child process: a deadlock or a dying worker is an outcome) oracles only
         b0 = K.go_build(ctx, "incrtrace")
